@@ -15,8 +15,8 @@
 #include "mmd.h"
 
 /* ops: i init, s convert small, k convert a kitchen sink (headings, definitions, table, notes), b convert big (two slabs), f fill the current slab exactly, h parse-and-hold a tree,
-        c inspect (checksum) the held tree, d drain, x free */
-static char *big; static char *ref_small, *ref_big, *ref_sink;
+        c inspect (checksum) the held tree, m metadata queries on the held (already parsed) engine, d drain, x free */
+static char *big, *bigmeta; static char *ref_small, *ref_big, *ref_sink;
 /* a document that exercises the token-releasing paths of a conversion (automatic heading ids, definitions that are extracted, table assembly, notes) */
 static const char *SINK = "Title: T\n\n# Head *one*\n\ntext[^f] [l][] [#c] \"q\" <http://a.b/>\n\nSetext\n------\n\n| a | b |\n|---|---|\n| c | d |\n[Cap]\n\nterm\n: def\n\n[^f]: note\n[l]: http://x.y/ \"t\"\n[#c]: Cite\n";
 static uint64_t walk(token *t) { uint64_t h = 1469598103934665603ULL; while (t) { h ^= t->type + t->start * 31 + t->len * 131; h *= 1099511628211ULL; if (t->child) h ^= walk(t->child); t = t->next; } return h; }
@@ -30,7 +30,8 @@ static int run(const char *h, char *out, size_t cap) {
 			case 'b': { char *r = mmd_string_convert(big, 0x2218, 0, 0); if (!r || strcmp(r, ref_big)) { snprintf(out, cap, "VIOL pool:output-differs two-slab conversion at step %d differs from fresh single use", i); return 1; } free(r); } break;
 			case 'k': { char *r = mmd_string_convert(SINK, 0x2218, 0, 0); if (!r || strcmp(r, ref_sink)) { snprintf(out, cap, "VIOL pool:output-differs kitchen-sink conversion at step %d differs from fresh single use", i); free(r); return 1; } free(r); } break;
 			case 'f': { while (token_pool->next != token_pool->last) token_new(0, 0, 0); } break;
-			case 'h': if (!held) { held = mmd_engine_create_with_string(big, 0x2218); mmd_engine_parse_string(held); heldsum = walk(mmd_engine_root(held)); heldid = i + 1; } break;
+			case 'h': if (!held) { held = mmd_engine_create_with_string(bigmeta, 0x2218); mmd_engine_parse_string(held); heldsum = walk(mmd_engine_root(held)); heldid = i + 1; } break;
+			case 'm': if (held) { size_t end = 0; bool has = mmd_engine_has_metadata(held, &end); char *ks = mmd_engine_metadata_keys(held); if (!has || !ks || strcmp(ks, "title\n")) { snprintf(out, cap, "VIOL pool:metadata-query-result metadata query on the held engine returned has=%d keys=%s at step %d", (int)has, ks ? ks : "NULL", i); free(ks); return 1; } free(ks); } break;
 			case 'c': if (held) { if (walk(mmd_engine_root(held)) != heldsum) { snprintf(out, cap, "VIOL pool:held-tree-changed tree held since step %d changed before the outermost drain (seen at step %d)", heldid - 1, i); return 1; } } break;
 			case 'd':
 				if (held && count > 1) { if (walk(mmd_engine_root(held)) != heldsum) { snprintf(out, cap, "VIOL pool:held-tree-changed tree changed before an inner drain at step %d", i); return 1; } }
@@ -55,6 +56,7 @@ const char *__asan_default_options(void) { return "detect_leaks=0"; }
 const char *__ubsan_default_options(void) { return "print_stacktrace=1:halt_on_error=1"; }
 int main(void) {
 	big = malloc(6 * 1500 + 2); big[0] = 0; for (int i = 0; i < 1500; i++) strcat(big, "*a "); strcat(big, "\n");
+	bigmeta = malloc(strlen(big) + 32); strcpy(bigmeta, "Title: T\n\n"); strcat(bigmeta, big);
 	token_pool_init(); ref_small = mmd_string_convert("a *b* c\n", 0x2218, 0, 0); ref_big = mmd_string_convert(big, 0x2218, 0, 0); ref_sink = mmd_string_convert(SINK, 0x2218, 0, 0); token_pool_drain(); token_pool_free();
 	char line[256];
 	while (fgets(line, sizeof line, stdin)) {
